@@ -20,8 +20,12 @@ open XlVerif XlVerif.Model.Value XlVerif.Model.C15 XlVerif.Spec.C09 XlVerif.Lemm
 
 /-! ## obligations on the regenerated tables (re-checked against what the code says now) -/
 
-/-- `CRITERIA_REGEX` has the shape `(alt|…|alt)?(.*)` with literal alternatives over `< > =` -/
-theorem regex_shape : (regexAlts Gen.criteriaRegex).isSome = true := by decide
+/-- the criteria regex of the running code BEHAVES like `regexSplit genAlts` (first alternative that is a prefix, then the
+    rest up to a newline): on every probed text (all texts of length ≤ 3 over `< > = a 1 blank newline`, split by the real
+    regex when the tables were regenerated) the model splits exactly as the code does.  A behavioural tie: an
+    equivalent rewrite of the regex (character classes, compiled, renamed) keeps this obligation. -/
+theorem regex_shape : Gen.criteriaSplitProbe.all (fun p => regexSplit genAlts p.1 == (p.2.1, p.2.2)) = true := by
+  decide +kernel
 
 /-- its alternatives are operator strings of length ≤ 2 and, tried in order, select the longest
     operator prefix on all 21 representative strings (an order/shape condition, not a literal
